@@ -119,8 +119,8 @@ func NewHookEnv() *HookEnv {
 	router := baseapp.NewMsgServiceRouter()
 	router.SetInterfaceRegistry(encoding.MakeConfig(app.ModuleBasics).InterfaceRegistry)
 	stakingtypes.RegisterMsgServer(router, rec)
-	distrtypes.RegisterMsgServer(router, distrRec{r: rec})
-	govtypes.RegisterMsgServer(router, govRec{r: rec})
+	distrtypes.RegisterMsgServer(router, &distrRec{r: rec})
+	govtypes.RegisterMsgServer(router, &govRec{r: rec})
 	sh := adstaking.NewHookAdapter(&e.app.AccountKeeper, &e.app.StakingKeeper, e.app.EvmKeeper, router)
 	gh := adgov.NewHookAdapter(&e.app.AccountKeeper, e.app.EvmKeeper, router)
 	return &HookEnv{env: e, rec: rec, staking: sh, gov: gh, multi: evmkeeper.NewMultiEvmHooks(sh, gh)}
